@@ -44,7 +44,7 @@ CHECKS = {
         ref="DESIGN.md section 5 C15", note="'Every piece evaluated exactly once' is C05; 'available => succeeded' relies on C02 (checked by oracle here). Known finding K3 (duplicate file paths in one torrent: succeeded pieces that do not verify) is listed in known_findings.json."),
     "C16": dict(
         technique="Coq proof (bad path in any position => Fault with no mutating op; no piece program panics; loader total) + child-process runs (bad paths, no/unloadable torrents, degenerate torrents, CLI binary)",
-        text="Partial: C16_bad_path_no_effect, C16_piece_never_panics, C16_load_total are theorems of the model; allocation failure is runtime (known finding K2). Bad paths of every kind in every position, runs without loadable torrents, degenerate loadable torrents and the CLI binary are exercised as child processes. WHOLE RUN (SystemModel/SystemProofs/GlueProofs): the scanning phase is a transition system (pool of piece programs over one shared file system; steps = any program's next action, failed operations, arbitrary read answers, a write cut short); C16_whole_run_no_panic; C16_loaded_torrent_ok ties the loader to the premises of the layout/work-list theorems. Streams: near-loadable documents (a degenerate value in the name / path variant the loader uses, same-length files on disk: the run must do nothing); a FIFO at an export location (known finding K4).",
+        text="C16_setup_never_panics (SetupTotal.v): for torrents the loader returned and any index (any directory contents) the candidate ranking and the work-list construction return Ok - no unwrap of the set-up can fire; C16_loaded_paths_ok. Partial: C16_bad_path_no_effect, C16_piece_never_panics, C16_load_total are theorems of the model; allocation failure is runtime (known finding K2). Bad paths of every kind in every position, runs without loadable torrents, degenerate loadable torrents and the CLI binary are exercised as child processes. WHOLE RUN (SystemModel/SystemProofs/GlueProofs): the scanning phase is a transition system (pool of piece programs over one shared file system; steps = any program's next action, failed operations, arbitrary read answers, a write cut short); C16_whole_run_no_panic; C16_loaded_torrent_ok ties the loader to the premises of the layout/work-list theorems. Streams: near-loadable documents (a degenerate value in the name / path variant the loader uses, same-length files on disk: the run must do nothing); a FIFO at an export location (known finding K4).",
         ref="DESIGN.md section 5 C16", note="Allocation failure and thread panics at join are runtime."),
     "C04": dict(
         technique="Coq proof (export file first for every hash-map order; verified piece => Success with NO mutating operation; verified ranges survive every admissible operation; no truncate flags) + histories of runs with write-log oracle",
